@@ -216,4 +216,21 @@ CHECKS = {
               'observed (bounded by enquire_link_interval + 1 s), not derived.'),
         note=COMMON_NOTE + 'asyncio and the virtual-time loop are trusted; a cycle is summarised by its duration and the 0.5 s task grace; same-instant orderings of stop() and other events are excluded by sub-millisecond offsets.',
         technique='Lean 4 theorems (induction over fault scripts with a back-off invariant, omega); differential correspondence on a virtual-time event loop with a scripted peer; shutdown predicates'),
+    'C05': dict(
+        text=('Proof. Props/C05.lean: (1) decoder_classes / body_classes - for EVERY byte string and default alphabet the decoder model '
+              '(from_pdu of all classes, TLV loop, UDH walk, text codecs, SMPP time strings, receipt text) raises only ValueError, '
+              'UnicodeError, LookupError (KeyError, IndexError) or struct.error; compositional proof over the whole decoder, including '
+              'that the timedelta of a relative time can never overflow (two-character fields). (2) handlers_cover - every such class '
+              'is an instance of a class named in the except clauses of _handle_request/_handle_response, which are REGENERATED from '
+              'esme.py together with the class hierarchy of the running interpreter (Gen/Catch.lean). Hence request_answered_once: a '
+              'PDU with a recognised header whose command is a request gets exactly one response echoing its sequence number (the '
+              'matching response, or generic_nack with a non-zero status); response_ignored; escape_only_unusable_header: the only '
+              'exception that leaves the receive loop is the ValueError of an unknown command id / status, which _end_task tolerates '
+              'and start() answers with a reconnect. Tied to esme.py by feeding the malformed streams (all command ids, corruptions of '
+              'every field, receipts, UDHI, undecodable text per data coding, TLV length perturbations, foreign shapes, random bodies) to a '
+              'real bound session on the virtual-time loop: what is written and whether the link stays up equals the model; predicate: one '
+              'response per request, none per response, start() never ends, a following enquire_link is answered. Mis-framed streams '
+              '(truncation at every offset, length field larger/smaller, garbage) are judged by the predicate only.'),
+        note=COMMON_NOTE + 'RuntimeError is the model stand-in for text codecs it does not describe (excluded by hypothesis; those PDUs go to the real session and are judged by the predicate). Hooks and transport writes are assumed not to fail here. The decoder model is the one tied to protocol.py by the C03/C04/C20 correspondences.',
+        technique='Lean 4 theorems (compositional exception-class analysis of the decoder, kernel-checked coverage of the regenerated catch matrix); differential correspondence through a real session on a virtual-time loop'),
 }
